@@ -175,7 +175,7 @@ impl Park {
 }
 
 // waiting for the kernel half must not be a cancellation point
-fn wait_kernel_yield() {
+pub(crate) fn wait_kernel_yield() {
     if crate::coroutine_impl::is_coroutine() {
         let cancel = crate::coroutine_impl::current_cancel_data();
         cancel.disable_cancel();
